@@ -104,6 +104,9 @@ def detect(pid, k, d, checks, log):
     rc, o = sh("git apply %s" % os.path.join(d, "patch.diff"), cwd=ws + "/repo")
     out = {}
     if rc != 0:
+        # the tree moved on since the change was seeded (later fix: commits): try a 3-way application
+        rc, o = sh("git apply --3way %s && git reset -q" % os.path.join(d, "patch.diff"), cwd=ws + "/repo")
+    if rc != 0:
         return {"error": "patch does not apply: " + o[-200:]}
     for c in checks:
         rc, o = sh("./check %s" % c, cwd=ws + "/verif", timeout=5400)
